@@ -4,9 +4,12 @@
     op chmod <mode> | op chown <uid> <gid> | op utime <atime> <mtime> | op truncate <size>
                                             → <hex of the client's attribute block> | <calls>   (or err:range)
     trunc <hex contents> <n>                → hex of the contents after truncate(n)
+    path <hex cwd | none> <hex path>        → hex of the path a by-path request carries (`_adjust_cwd`) | hex of the
+                                              server's canonical form of it
   calls are printed as `chmod:<m>`, `chown:<u>:<g>`, `utime:<a>:<t>`, `truncate:<n>`, space separated, `-` if none.
 -/
 import PV.Model.SetAttr
+import PV.Model.Canon
 import PV.Base.DriverIO
 open PV PV.Wire PV.SftpAttr PV.SetAttr
 
@@ -43,6 +46,12 @@ def step (line : String) : String :=
       | .error .range => "err:range"
       | .error .type => "err:type"
     | none => "bad-op"
+  | ["path", cwd, hex] =>
+    match (if cwd == "none" then some none else (ofHex? cwd).map some), ofHex? hex with
+    | some c, some p =>
+      let q := adjustCwd c p
+      toHexTok q ++ " | " ++ toHexTok (PV.Canon.canonicalize q)
+    | _, _ => "bad-op"
   | ["trunc", hex, n] =>
     match ofHex? hex, n.toNat? with
     | some c, some n => toHexTok (truncated c n)
